@@ -24,9 +24,11 @@ pub fn install_panic_hook() {
 
 /// run a future on its own task so that a panic inside the library becomes an Err("PANIC: ..")
 pub async fn guarded<T: Send + 'static>(fut: impl Future<Output = Result<T, String>> + Send + 'static) -> Result<T, String> {
-    match tokio::spawn(fut).await {
-        Ok(r) => r,
-        Err(_) => Err(format!("PANIC: {}", LAST_PANIC.lock().unwrap().clone())),
+    // a stalled operation becomes an error (reported as an unlisted oracle failure) instead of hanging the run
+    match tokio::time::timeout(std::time::Duration::from_secs(180), tokio::spawn(fut)).await {
+        Err(_) => Err("TIMEOUT: the operation did not finish within 180 s".to_string()),
+        Ok(Ok(r)) => r,
+        Ok(Err(_)) => Err(format!("PANIC: {}", LAST_PANIC.lock().unwrap().clone())),
     }
 }
 
